@@ -327,6 +327,27 @@ func afmCase(o *suiteOut, line string) {
 		if d := compareMetrics(m, back, true); d != "" {
 			o.fail("C15", "the reader understands the same data with bare CR line ends", line, "equal", d[:min(len(d), 200)])
 		}
+	case "mixedeol":
+		// one file with all three line-end conventions, chosen line by line
+		m := randMetrics(r)
+		var laid []byte
+		for _, l := range bytes.Split(bytes.ReplaceAll(renderAFM(r, m), []byte("\r\n"), []byte("\n")), []byte("\n")) {
+			laid = append(laid, l...)
+			laid = append(laid, pick(r, []string{"\n", "\r\n", "\r", "\r", "\n"})...)
+		}
+		afmrwLine(o, laid)
+		back, err, pan := readMetrics(laid)
+		if pan != "" {
+			o.fail("C01", "no panic in the AFM reader", line, "error value", pan)
+			break
+		}
+		if err != nil {
+			o.fail("C15", "the reader understands the data laid out by an independent writer", line, "metrics", err.Error())
+			break
+		}
+		if d := compareMetrics(m, back, true); d != "" {
+			o.fail("C15", "the reader understands the same data with LF, CR LF and CR line ends mixed in one file", line, "equal", d[:min(len(d), 200)])
+		}
 	case "afterfail":
 		// history: a Write that fails half-way (a writer that runs out of room at every possible size), then other
 		// metrics are written: what is written is that of the second value alone, and it reads back equal
@@ -444,6 +465,9 @@ func suiteAFM(o *suiteOut, r *rng, tier string, n int) {
 	afmCase(o, "afm 5 afterfail")
 	afmCase(o, "afm 2 barecr")
 	afmCase(o, "afm 3 barecr")
+	for i := 0; i < 40; i++ {
+		afmCase(o, fmt.Sprintf("afm %d mixedeol", 600+i))
+	}
 	for _, l := range corpusLines("afm") {
 		afmCase(o, l)
 		o.count("corpus cases")
